@@ -71,4 +71,38 @@ PROPS = {
                         "the code's behaviour on them is compared with the model but the two 'is reported again' clauses are not judged there"],
         "trusted_base": ["model: lean/CliUtils/Model/Wait.lean; overlay export harness/overlay/taskrunner_export.go"],
     },
+    "C20": {
+        "level_text": ("Machine-checked Lean 4 theorems over ALL event streams accepted by the C13 event grammar (any plan, any length): "
+                       "the model of BaseListPrinter.Print + JSON formatter + stats collector writes exactly one line per printed event, "
+                       "each line identifies its event, the counters of group-finished and summary lines equal the counts of the events "
+                       "seen so far (the running statistics are proved equal to List.countP over the prefix, for all streams), and the "
+                       "result is an error iff the stream holds an error event, a failed actuation, a failed reconcile or a timeout. "
+                       "The model is tied to the code by pushing grammar-generated streams through the real printers.GetPrinter(\"json\") "
+                       "and comparing every parsed output line and the returned error; the property predicate (Spec.printSpec, computed "
+                       "from the input stream by counting events) is evaluated on the real output. Whole-stream counting and the "
+                       "error/no-error result are not quantified over by the unit tests."),
+        "level_note": ("Trusted: Lean kernel (+propext, Quot.sound, Classical.choice), the hand-written model and grammar, the Go harness "
+                       "(stream generator, line canonicalisation) and driver. Byte-level JSON encoding is encoding/json's; every output "
+                       "line is re-parsed by the harness. The proof is about the model; the code is covered as far as the correspondence "
+                       "run explores (reported in evidence)."),
+        "technique": "Lean 4 proof (induction over event streams / grammar automaton invariants) + differential correspondence against the real Go printer",
+        "domains": ["print", "grammar-neg"],
+        "rule": ("print: random streams generated from the grammar — plan of 1..5 groups (apply/prune/delete/wait/inventory, applier-like, "
+                 "destroyer-like or random order) over 1..6 objects, random successful/skipped/failed/timeout outcomes, optional "
+                 "validation events, optional interleaved status events, optional truncation of the plan and final error, early exit "
+                 "without plan event; status printing on/off. grammar-neg: the same streams with one of 17 grammar violations planted "
+                 "(must be rejected by eventsWellFormed; also printed, covering the panic and formatter-error branches). A case is "
+                 "non-trivial if at least one group finished and the stream holds at least one apply/prune/delete/wait event; "
+                 "distinct = distinct canonical input JSON."),
+        "exhaustive_quick": False,
+        "explanation": ("Theorems: wellFormed_printable, stats_equal_counts (all streams), print_satisfies_spec, one_line_per_printed_event, "
+                        "line_identifies_event, counts_equal_events_so_far, summary_counts, print_error_iff (+ off-grammar branches: id-less "
+                        "validation rejected, Pending result panics). Tie: the real JSON printer is run on each generated stream with a "
+                        "bytes.Buffer; each output line is parsed with encoding/json and canonicalised by the keys it carries; lines and "
+                        "error kind are compared with the model's, and Spec.printSpec is evaluated on the real output."),
+        "assumptions": ["error values are modelled by their message text; the timestamp field is only checked to be RFC3339",
+                        "ErrorEvent.Err and ValidationEvent.Error are non-nil and StatusEvent.PollResourceInfo is non-nil (the printer dereferences them)"],
+        "trusted_base": ["model: lean/CliUtils/Model/{Event,Print}.lean, grammar: lean/CliUtils/Spec/EventGrammar.lean, predicate: lean/CliUtils/Spec/PrintSpec.lean (hand-written)",
+                         "harness/cmd/corr/dom_c20.go (generator from the grammar, canonicalisation of output lines)"],
+    },
 }
